@@ -251,7 +251,10 @@ fn write_file_layout(len: usize, sector_size: usize, crcs: bool, encrypt: bool, 
             i += 1;
         }
         let total: usize = sl[0] + sl[1] + sl[2];
-        assert!((flags & BlockEntry::FLAG_COMPRESS != 0) == any_compressed, "COMPRESS iff some sector is stored compressed");
+        // published format: a sector offset table exists only on files marked compressed, so the flag accompanies the table
+        // whether or not any sector shrank (F1: it used to be set only when one did, and such files read back as table + data)
+        let _ = any_compressed;
+        assert!(flags & BlockEntry::FLAG_COMPRESS != 0, "COMPRESS accompanies the sector offset table");
         assert!(size == table + total, "reported stored size = offset table + sector bytes (checksum table not counted)");
         assert!(written == table + crc_bytes + total, "bytes written = offset table + checksum table + sector bytes");
         // offset table
